@@ -201,11 +201,29 @@ theorem bm_panic_single_term (p : ℕ) (hp : p.Prime) (hodd : p % 2 = 1) (hlt : 
     · exact hap
     · rw [List.eq_of_mem_replicate hx]; exact hp.pos
 
-/-- witness for the third class (the `FIXME`): `1,0,0,1` has no connection polynomial on the
-window (`c_2 ≡ 0`, `c_0 + c_3 ≡ 0`, `c_3 ≡ 0`), the run ends with `u = x`, `f = x` and the
-assertion `u[0] != 0` fails. The function never returns a shifted recurrence: it panics. -/
-theorem bm_panic_zero_constant_term :
-    bm 7 [1, 0, 0, 1] = none ∧ bm 65537 [1, 0, 0, 1] = none ∧ bmBig 7 [1, 0, 0, 1] = none := by
+/-- witness for the third class (the `FIXME: divide by x^v??`), for every modulus in the domain:
+`1,0,0,1` has no connection polynomial on the window (`c_0 + c_3 ≡ 0` and `c_3 ≡ 0`), the run ends
+with `u = x`, `f = x` and the assertion `u[0] != 0` fails. The function never returns a shifted
+recurrence: it panics. -/
+theorem bm_panic_zero_constant_term (p : ℕ) (hp : p.Prime) (hodd : p % 2 = 1) (hlt : p < 2 ^ 63) :
+    bm p [1, 0, 0, 1] = none := by
+  rw [bm_no_panic_iff p hp hodd hlt]
+  · right; right
+    refine ⟨⟨0, 3, by decide, by decide, by decide⟩, ?_⟩
+    rintro ⟨c, c0, c1, c2⟩
+    have h3 := c2 3 (by decide) (by decide)
+    have hc3 := c1 3 (by decide)
+    have e : convAt c [1, 0, 0, 1] 3 = c.getD 0 0 + c.getD 3 0 := by
+      simp [convAt, List.range_succ]
+    rw [e, Nat.add_mod, hc3, Nat.add_zero, Nat.mod_mod] at h3
+    exact c0 h3
+  · intro x hx
+    have : 1 < p := hp.one_lt
+    simp only [List.mem_cons, List.mem_nil_iff, or_false] at hx
+    omega
+
+/-- the same witness evaluated on the model, both variants -/
+example : bm 7 [1, 0, 0, 1] = none ∧ bm 65537 [1, 0, 0, 1] = none ∧ bmBig 7 [1, 0, 0, 1] = none := by
   decide +kernel
 
 /-! ### (d) non-vacuity -/
